@@ -500,17 +500,17 @@ def centred_distances(idx: ProgramIndex, rep: Report):
 
 
 # ---- C07-9 ---------------------------------------------------------------------------------------------------------
-def wendland_exponent(idx: ProgramIndex, rep: Report):
+def wendland_exponent(idx: ProgramIndex, rep: Report, rule: str = "C07-9"):
     """The compactly supported piecewise-polynomial covariance (1 - r)_+^(j+q) p_q(j, r) is positive definite on R^D only for
     j >= floor(D/2) + q + 1, D the dimension of the inputs (Wendland; Rasmussen & Williams 4.21).  The clause: in
     PiecewisePolynomialKernel.forward the exponent handed to the polynomial helpers is floor(D/2) + q + 1 with D read from the shape
     of an input tensor (a parameter of forward, or a local computed from one) - not from a parameter of the kernel, whose shape says
     nothing about the data unless ARD is on."""
-    rep.rule("C07-9", "PiecewisePolynomialKernel: the exponent j is floor(D/2) + q + 1 with D a size of the input tensors (the condition under which the compactly supported polynomial is a valid covariance in D dimensions)")
+    rep.rule(rule, "PiecewisePolynomialKernel: the exponent j is floor(D/2) + q + 1 with D a size of the input tensors (the j of the closed form, Rasmussen & Williams 4.21, and the condition under which the compactly supported polynomial is a valid covariance in D dimensions)")
     K = idx.find_class("PiecewisePolynomialKernel")
     fw = K.methods.get("forward")
     if fw is None:
-        raise AnalysisError("C07-9: PiecewisePolynomialKernel.forward not found (anchor)")
+        raise AnalysisError(rule + ": PiecewisePolynomialKernel.forward not found (anchor)")
     sn = fw.params[0]
     tensor_params = set(fw.params[1:3])
     assigns: Dict[str, List[ast.AST]] = {}
@@ -555,7 +555,7 @@ def wendland_exponent(idx: ProgramIndex, rep: Report):
     # the exponent: second argument of the polynomial helpers
     helper_calls = [c for c in calls_in(fw.node) if (chain(c.func) or "") in ("_fmax", "_get_cov") and len(c.args) >= 2]
     if not helper_calls:
-        raise AnalysisError("C07-9: forward no longer calls _fmax / _get_cov with the exponent (anchor)")
+        raise AnalysisError(rule + ": forward no longer calls _fmax / _get_cov with the exponent (anchor)")
     probs = []
     for c in helper_calls:
         j = c.args[1]
@@ -575,5 +575,5 @@ def wendland_exponent(idx: ProgramIndex, rep: Report):
             bad = [x for x in ddefs if not is_input_size(x)]
             if not ddefs or bad:
                 probs.append("D in the exponent floor(D/2) + q + 1 is `%s`: not a size of the input tensors - with the default (non-ARD) kernel that is 1 whatever the dimension of the data, and for j < floor(D/2) + q + 1 the compactly supported polynomial is not positive definite in D dimensions (indefinite Gram matrices)" % (src(bad[0]) if bad else src(D)))
-    rep.add("C07-9", "%s:PiecewisePolynomialKernel.forward[exponent j]" % K.module.name, fw.where, not probs,
+    rep.add(rule, "%s:PiecewisePolynomialKernel.forward[exponent j]" % K.module.name, fw.where, not probs,
             "j = floor(D/2) + q + 1 with D a size of the inputs at all %d uses" % len(helper_calls) if not probs else "; ".join(sorted(set(probs))), {})
